@@ -526,7 +526,7 @@ void QXmppTransferIncomingJob::connectToHosts(const QXmppByteStreamIq &iq)
 bool QXmppTransferIncomingJob::writeData(const QByteArray &data)
 {
     const qint64 written = d->iodevice->write(data);
-    if (written < 0) {
+    if (written != data.size()) {
         return false;
     }
     d->done += written;
@@ -597,7 +597,10 @@ void QXmppTransferIncomingJob::_q_receiveData()
 
     // receive data block
     if (d->direction == QXmppTransferJob::IncomingDirection) {
-        writeData(d->socksSocket->readAll());
+        if (!writeData(d->socksSocket->readAll())) {
+            terminate(QXmppTransferJob::FileAccessError);
+            return;
+        }
 
         // if we have received all the data, stop here
         if (fileSize() && d->done >= fileSize()) {
@@ -1025,7 +1028,15 @@ void QXmppTransferManager::ibbDataIqReceived(const QXmppIbbDataIq &iq)
     }
 
     // write data
-    job->writeData(iq.payload());
+    if (!job->writeData(iq.payload())) {
+        QXmppStanza::Error error(QXmppStanza::Error::Cancel, QXmppStanza::Error::InternalServerError);
+        response.setType(QXmppIq::Error);
+        response.setError(error);
+        client()->sendPacket(response);
+
+        job->terminate(QXmppTransferJob::FileAccessError);
+        return;
+    }
     job->d->ibbSequence++;
 
     // acknowledge the packet
